@@ -57,6 +57,7 @@ type planCase struct {
 	Kt      string            `json:"kt"`
 	Kind    string            `json:"kind"`
 	P       keyfactory.Params `json:"p"`
+	DP      keyfactory.Params `json:"dp"` // fmt: the parameters the format denotes
 	Wire    *wireForm         `json:"wire"`
 	Interop bool              `json:"interop"`
 	Name    string            `json:"name"`
